@@ -462,11 +462,15 @@ theorem fits_shape (breaks : List (Nat × Bool)) : ∀ (fuel : Nat) (stack : Lis
       | lineSuffix ds => exact ih _ _
       | ifBreak b f g =>
         simp only [Doc.shape]
-        generalize (match g with | some g => lookupBreak breaks g | none => decide (m = Mode.brk)) = c
-        have e : (if c = true then b.shape else f.shape) = (if c = true then b else f).shape := by
-          split <;> rfl
-        rw [e]
-        exact ih ((if c = true then b else f, m) :: rest) rem
+        cases g with
+        | none =>
+          by_cases hm : m = Mode.brk
+          · simp only [hm, decide_true, if_true]; exact ih ((b, Mode.brk) :: rest) rem
+          · simp only [hm, decide_false, Bool.false_eq_true, if_false]; exact ih ((f, m) :: rest) rem
+        | some g =>
+          by_cases hl : lookupBreak breaks g = true
+          · rw [if_pos hl, if_pos hl]; exact ih ((b, m) :: rest) rem
+          · rw [if_neg hl, if_neg hl]; exact ih ((f, m) :: rest) rem
       | alignGroup es =>
         simp only [Doc.shape, alignFitsSeq_shape]
         have e : ((alignFitsSeq es).map Doc.shape).map (·, m) ++ rest.map (fun p => (p.1.shape, p.2))
